@@ -46,7 +46,9 @@ func TestCheck(t *testing.T) {
 	defer r.Finish()
 	r.SetRule("case = (secret class, fresh secret, mode, interleaving): one fresh valid secret obtained by withholding the redeeming hop of a real flow, then presented by " +
 		"2-3 actors steered at session-store operation hooks (seeded random schedules), or 8-16 unsteered actors, or sequentially; plus spoil-then-redeem for codes. " +
-		"Non-trivial when >=2 presentations of the same value completed; distinct by (class, mode, interleaving string).")
+		"Store faults: per class every (presentation of a 3-4 step sequential history, backend operation on the value's key) x {request lost, reply lost} x {single operation, rest of the request} is injected underneath the session store (fault points sessiondb.*), plus seeded plans on two steered concurrent presentations. " +
+		"Volume: s2s nonce / DPoP proof honoured, session database grown past N entries (fixed ascending list up to 100 000 quick / 262 144 thorough), replay; earlier DPoP proofs replayed at every later stage. " +
+		"Non-trivial when >=2 presentations of the same value completed; distinct by (class, mode, interleaving string / fault plan / N).")
 	r.Require(40, 12)
 	r.Assume("in-memory session store (the sandbox has no redis/memcached); at-most-once across several nodes sharing a remote session store is not exercised")
 	w := iamflow.NewWorld(t, iamflow.Options{})
